@@ -71,6 +71,9 @@ pub const VALID_EXPRS: &[&str] = &[
     // 53: tables with three rows (two row separators in the braille codes that mark row ends)
     "<math><mo>(</mo><mtable><mtr><mtd><mn>1</mn></mtd></mtr><mtr><mtd><mn>2</mn></mtd></mtr><mtr><mtd><mn>3</mn></mtd></mtr></mtable><mo>)</mo></math>",
     "<math><mi>M</mi><mo>=</mo><mrow><mo>[</mo><mtable><mtr><mtd><mi>a</mi></mtd><mtd><mn>0</mn></mtd></mtr><mtr><mtd><mi>m</mi></mtd><mtd><mi>b</mi></mtd></mtr><mtr><mtd><mn>12</mn></mtd><mtd><mi>c</mi></mtd></mtr></mtable><mo>]</mo></mrow></math>",
+    // 55: Roman numerals (upper and lower case, as numbers and as identifiers)
+    "<math><mn>XIV</mn><mo>+</mo><mn>VII</mn><mo>=</mo><mn>XXI</mn></math>",
+    "<math><mi>x</mi><mo>=</mo><mn>iv</mn><mo>+</mo><mi mathvariant='normal'>XII</mi><mo>+</mo><mn>IX</mn></math>",
 ];
 
 /// Index of an expression with a character that only the *full* Unicode tables contain
